@@ -35,7 +35,7 @@ func (m *Mutex) canProceed(t *task) bool { return !m.held }
 
 func (m *Mutex) Lock() {
 	if !active || cur == nil {
-		if Solo {
+		if Solo && !soloMulti.Load() {
 			if !m.real.TryLock() {
 				soloFail("LIBRARY_BLOCKED", "mutex locked at "+m.lockedFn+"; holder "+soloHow(), map[string]string{"locked_at": m.lockedAt, "note": "single caller, nobody else can release it"})
 			}
@@ -142,7 +142,7 @@ func (r rwRead) canProceed(t *task) bool  { return !r.m.writer }
 
 func (m *RWMutex) Lock() {
 	if !active || cur == nil {
-		if Solo {
+		if Solo && !soloMulti.Load() {
 			if !m.real.TryLock() {
 				soloFail("LIBRARY_BLOCKED", "rwmutex locked at "+m.lockedFn+"; holder "+soloHow(), map[string]string{"locked_at": m.lockedAt})
 			}
@@ -215,7 +215,7 @@ func dropRW(m *RWMutex) {
 
 func (m *RWMutex) RLock() {
 	if !active || cur == nil {
-		if Solo {
+		if Solo && !soloMulti.Load() {
 			if !m.real.TryRLock() {
 				soloFail("LIBRARY_BLOCKED", "rwmutex locked at "+m.lockedFn+"; holder "+soloHow(), map[string]string{"locked_at": m.lockedAt})
 			}
@@ -574,9 +574,11 @@ func soloDrop(name string) {
 	}
 }
 
+var soloMulti atomic.Bool
+
 // SoloEnd reports a lock that is still held after the call.
 func SoloEnd(how string) {
-	if Solo && len(soloHeld) > 0 {
+	if Solo && !soloMulti.Load() && len(soloHeld) > 0 {
 		soloFail("LIBRARY_BLOCKED", soloHeld[len(soloHeld)-1]+" still held after call "+how, map[string]string{"how": how})
 	}
 }
